@@ -73,7 +73,66 @@ def vtypes_keys():
     return set(vtypes.SUBCLASSES)
 
 
+SIB_HOLDERS = ['ntuple', 'ns', 'exc', 'list', 'dict']
+SIB_FIRSTS = ['int', 'longlist', 'ndarray2', 'ndarray3']
+
+
+def sibling_cases():
+    # what is printed for a later element does not depend on an earlier one that was truncated (incl. arrays of the bundled
+    # numpy extra, which narrows the limit for its own rows)
+    for holder in SIB_HOLDERS:
+        for first in SIB_FIRSTS:
+            for n in (3, 5):
+                yield {'sibling': holder, 'first': first, 'n': n, 'width': 79, 'indent': 4}
+
+
+def oracle_sibling(case):
+    import ast
+    import collections
+    import types
+    n = case['n']
+    first = case['first']
+    if first.startswith('ndarray'):
+        try:
+            import warnings
+            with warnings.catch_warnings():
+                warnings.simplefilter('ignore')
+                import numpy as np
+                import prettyprinter
+                prettyprinter.install_extras(['numpy'], warn_on_error=False)
+        except Exception as e:     # the optional package is not importable here
+            return core.skip('numpy-extra-unavailable')
+        a = np.arange(24).reshape(4, 6) if first == 'ndarray2' else np.arange(48).reshape(2, 4, 6)
+    elif first == 'int':
+        a = 0
+    else:
+        a = list(range(n + 4))
+    inner = list(range(1, n))                   # shorter than the limit: shown in full wherever it stands
+    b = [inner, {'k': inner, 'j': (inner, inner)}]
+    P = collections.namedtuple('P', 'a b')
+    v = {'ntuple': lambda: P(a, b), 'ns': lambda: types.SimpleNamespace(a=a, b=b), 'exc': lambda: ValueError(a, b),
+         'list': lambda: [a, b], 'dict': lambda: {'a': a, 'b': b}}[case['sibling']]()
+    cfg = {'width': case['width'], 'ribbon_width': case['width'], 'indent': case['indent'], 'max_seq_len': n}
+    p = values.pp(v, **cfg)
+    alone = values.pp(b, **cfg)
+    if p.exc is not None or alone.exc is not None:
+        return core.viol('pformat-raised', repr(p.exc or alone.exc))
+    if p.fallback_warnings():
+        return core.viol('warning', p.fallback_warnings()[0][:400])
+    # the text of b is the tail of the output: find it by the unique opening of b alone, compare token streams
+    want = ast.dump(ast.parse('(' + alone.text + '\n)', mode='eval').body)
+    norm = ' '.join(p.text.split())
+    key = ' '.join(alone.text.split())
+    if ast.literal_eval(alone.text) != b:
+        return core.viol('short-list-truncated', 'alone: ' + alone.text[:300])
+    if key not in norm.replace('( ', '(').replace(' )', ')') and key.replace(' ', '') not in norm.replace(' ', ''):
+        return core.viol('sibling-changes-element', 'after a %s in a %s the element prints differently (max_seq_len=%d):\n%s\nalone:\n%s' % (first, case['sibling'], n, p.text[:600], alone.text[:300]))
+    return core.ok(first != 'int', ['sibling', 'sibling-' + first])
+
+
 def fixed_cases():
+    for c in sibling_cases():
+        yield c
     for kind in ('list', 'tuple', 'set', 'fset', 'dict'):
         for ln in (999, 1000, 1001, 1200):
             yield {'long': [kind, ln], 'n': 'default', 'width': 79, 'indent': 4}
@@ -308,6 +367,8 @@ def build_long(kind, ln):
 
 
 def oracle(case):
+    if 'sibling' in case:
+        return oracle_sibling(case)
     if 'long' in case:
         v = build_long(*case['long'])
     else:
